@@ -344,6 +344,15 @@ func c12One(c c12Case, rng *Rng) string {
 	quit := make(chan struct{})
 	consumerDone := make(chan struct{})
 	crng := NewRng(rng.U64())
+	// long UDP sessions: the exporter runs far ahead of a consumer that falls behind
+	backlog := false
+	if c.proto == "udp" {
+		for _, cl := range c.clients {
+			if len(cl.msgs) > 40 {
+				backlog = true
+			}
+		}
+	}
 	go func() {
 		defer close(consumerDone)
 		ch := cp.GetMsgChan()
@@ -352,6 +361,9 @@ func c12One(c c12Case, rng *Rng) string {
 			case m := <-ch:
 				tr.add(int(m.GetObsDomainID()), int(m.GetSequenceNum()), c12Garbled(m))
 				perturb(crng, level)
+				if backlog {
+					time.Sleep(300 * time.Microsecond) // a consumer that falls behind
+				}
 			case <-quit:
 				return
 			}
@@ -422,6 +434,9 @@ func c12One(c c12Case, rng *Rng) string {
 			if window < 1 {
 				window = 1
 			}
+			if backlog {
+				window = 64 // far ahead of a slow consumer (still far below the socket buffer)
+			}
 			for seq := 0; seq < len(cl.msgs); seq++ {
 				b := c12Msg(id, seq, cl.msgs[seq], int(r.U64()%10))
 				conn.SetWriteDeadline(time.Now().Add(20 * time.Second))
@@ -463,7 +478,13 @@ func c12One(c c12Case, rng *Rng) string {
 			case cl.end == "cut":
 				// abrupt close in the middle of a frame: header announces more than is sent
 				b := c12Msg(id, len(cl.msgs), 'd', 0)
-				conn.Write(b[:4+r.Intn(len(b)-5)])
+				if r.Intn(3) == 0 {
+					// ... or the last thing the peer got out is a header whose length field is
+					// smaller than a header (0..3): nothing to deliver, nothing to wait for
+					conn.Write([]byte{0, 10, 0, byte(r.Intn(4))})
+				} else {
+					conn.Write(b[:4+r.Intn(len(b)-5)])
+				}
 				raw.Close()
 			case cl.end == "hold":
 				<-release
@@ -624,6 +645,16 @@ func runC12(env *Env) {
 				cl.end = []string{"close", "close", "close", "cut", "hold"}[r.Intn(5)]
 			}
 			c.clients = append(c.clients, cl)
+		}
+		if c.proto == "udp" && k%10 == 1 {
+			// one or two exporters with a long session each (backlog at the collector)
+			c.mode = "quiet"
+			c.clients = nil
+			nc = 1 + r.Intn(2)
+			for i := 0; i < nc; i++ {
+				c.clients = append(c.clients, c12Client{end: "close", msgs: "t" + strings.Repeat("d", 90+r.Intn(60))})
+			}
+			env.Count("udp/backlog")
 		}
 		env.Count("proto/" + c.proto)
 		env.Count("mode/" + c.mode)
